@@ -241,3 +241,578 @@ class C15(Base):
         if t[0] == 'vi_poll':
             return len(t[2]) > 3
         return int(t[1]) >= 128
+
+
+# ====================================================================== helpers for derived spec runs
+def driver_run(lines, workdir, tag):
+    """run the extracted model/spec on derived lines (profile-independent functions)"""
+    if not lines:
+        return []
+    return lib.run_sharded('driver', 'release', lines, workdir, tag)
+
+
+def utf8_ok(b):
+    try:
+        b.decode('utf-8')
+        return True
+    except UnicodeDecodeError:
+        return False
+
+
+def frame_info(b):
+    """(header_len, remaining_len) of the fixed header at the start of b, or None"""
+    if len(b) < 2:
+        return None
+    val = 0
+    for j in range(4):
+        if 1 + j >= len(b):
+            return None
+        x = b[1 + j]
+        val |= (x & 0x7f) << (7 * j)
+        if not x & 0x80:
+            return (2 + j, val)
+    return None
+
+
+import strs
+
+
+def string_pool(rng, tier, valid_utf8_only=True):
+    n_ex = 4 if tier == 'quick' else 6
+    pool = list(strs.with_prefixes(strs.exhaustive(n_ex)))
+    pool += list(strs.with_prefixes(strs.sampled(rng, 3000 if tier == 'quick' else 60000, 9)))
+    pool += strs.long_strings(rng)
+    pool += strs.UTF8_EDGE + [b'a/' + e for e in strs.UTF8_EDGE] + [b'$share/' + e + b'/x' for e in strs.UTF8_EDGE]
+    g = pk.Gen(rng)
+    pool += [g.topic_filter() for _ in range(2000)] + [g.topic_name() for _ in range(1000)]
+    seen, out = set(), []
+    for s in pool:
+        if s not in seen:
+            seen.add(s)
+            out.append(s)
+    return out
+
+
+# ====================================================================== C18
+@register
+class C18(Base):
+    id = 'C18'
+    ops = ['tn', 'dec']
+    rule = ('bounded-exhaustive strings over {/,+,#,$,a,NUL,2-,3-,4-byte chars} (quick: length <= 4, thorough <= 6) behind 12 '
+            'prefix shapes, random strings up to length 9, long strings at 65,533..65,537 bytes, UTF-8 boundary sequences; '
+            'the same strings as PUBLISH topic, will topic (v3, v5) and Response Topic (PUBLISH and will properties). '
+            'Non-trivial: non-empty string.')
+
+    def cases(self, rng, tier):
+        cs = self.corpus()
+        dist = {}
+        self.meta = {}
+        pool = string_pool(rng, tier)
+        for s in pool:
+            cs.append('tn ' + pk.hx(s))
+            hist(dist, 'tn')
+        sub = [s for s in pool if len(s) <= 65535 and utf8_ok(s)]
+        step = max(1, len(sub) // (4000 if tier == 'quick' else 60000))
+        for s in sub[::step] + [s for s in sub if len(s) > 60000]:
+            frames = [
+                ('v3', 'name', ('publish', 0, 0, 1, 9, s, b'pl')),
+                ('v5', 'name', ('publish', 0, 1, 0, 0, s, ({}, []), b'pl')),
+                ('v3', 'name', ('connect', 4, 1, 10, b'c', (1, 0, s, b'm'), None, None)),
+                ('v5', 'name', ('connect', 5, 1, 10, ({}, []), b'c', (1, 0, ({}, []), s, b'm'), None, None)),
+            ]
+            if len(s) < 65000:
+                frames += [('v5', 'resp', ('publish', 0, 0, 0, 0, b't', ({8: s}, []), b'pl')),
+                           ('v5', 'resp', ('connect', 5, 1, 10, ({}, []), b'c', (0, 0, ({8: s}, []), b'w', b'm'), None, None))]
+            for fam, where, p in frames:
+                c = 'dec %s %s' % (fam, pk.hx(pk.encode(fam, p)))
+                self.meta[c] = (where, s)
+                cs.append(c)
+                hist(dist, 'dec:%s:%s' % (p[0], where))
+        return cs, dist
+
+    @staticmethod
+    def name_ok(s):
+        return len(s) <= 65535 and not any(c in s for c in (b'+', b'#', b'\x00'))
+
+    def judge(self, case, line, spec, ctx, i):
+        t = case.split()
+        if t[0] == 'tn':
+            s = bytes.fromhex(t[1][1:])
+            if not utf8_ok(s):
+                return None if line == 'notutf8' else 'harness utf8 pre-check differs'
+            f = fields(line)
+            ok = self.name_ok(s)
+            want_inv = '0' if ok else '1'
+            if f.get('inv') != want_inv:
+                return 'TopicName::is_invalid = %s but the rule (<=65535 bytes, no + # NUL) says %s' % (f.get('inv'), want_inv)
+            if f.get('try') != ('ok' if ok else 'err'):
+                return 'TopicName::try_from: %s' % f.get('try')
+            if ok:
+                if f.get('deref') != '1' or f.get('str') != '1':
+                    return 'accepted name does not read back as the original string'
+                if f.get('shared') != ('1' if s.startswith(b'$share/') else '0'):
+                    return 'is_shared wrong'
+                if f.get('sys') != ('1' if s.startswith(b'$SYS/') else '0'):
+                    return 'is_sys wrong'
+            return None
+        where, s = self.meta.get(case, (None, None))
+        if where is None:
+            return None
+        f = fields(line)
+        ok = self.name_ok(s)
+        for fe in ('block', 'async', 'poll'):
+            r = f.get(fe, '')
+            if ok and not r.startswith('ok '):
+                return '%s decoder rejects a packet whose topic %s is a valid topic name: %s' % (fe, pk.hx(s)[:60], r[:80])
+            if not ok:
+                want = 'err InvalidTopicName ' + pk.hx(s) if where == 'name' else 'err InvalidResponseTopic'
+                if r != want:
+                    return '%s decoder on invalid topic name %s: %s, expected %s' % (fe, pk.hx(s)[:60], r[:80], want[:80])
+        return None
+
+    def nontrivial(self, case, line):
+        return len(case.split()[-1]) > 1
+
+
+# ====================================================================== C16 / C17
+def filter_rule(s):
+    """MQTT 4.7 / 4.8 written directly over the decoded characters.  Returns (ok, sep)"""
+    try:
+        t = s.decode('utf-8')
+    except UnicodeDecodeError:
+        return None
+    if t == '' or len(s) > 65535 or '\x00' in t:
+        return (False, 0)
+    levels = t.split('/')
+    for i, l in enumerate(levels):
+        if '#' in l and (l != '#' or i != len(levels) - 1):
+            return (False, 0)
+        if '+' in l and l != '+':
+            return (False, 0)
+    if t.startswith('$share/'):
+        rest = t[7:]
+        if '/' not in rest:
+            return (False, 0)
+        name, flt = rest.split('/', 1)
+        if name == '' or '+' in name or '#' in name or flt == '':
+            return (False, 0)
+        return (True, 7 + len(name.encode()))
+    return (True, 0)
+
+
+@register
+class C16(Base):
+    id = 'C16'
+    ops = ['tf', 'dec']
+    rule = ('same string pool as C18 (bounded-exhaustive over the 9-letter alphabet x 12 prefix shapes, long strings around '
+            '65,535 bytes, UTF-8 boundary sequences, grammar-generated filters); every string through TopicFilter::is_invalid / '
+            'try_from and a sample inside SUBSCRIBE and UNSUBSCRIBE of both families.  The judge is the extracted '
+            'Spec.topic_filter_ok / share_sep and an independent Python rendering of MQTT 4.7/4.8. Non-trivial: non-empty string.')
+
+    def cases(self, rng, tier):
+        cs = self.corpus()
+        dist = {}
+        self.meta = {}
+        pool = string_pool(rng, tier)
+        for s in pool:
+            cs.append('tf ' + pk.hx(s))
+            hist(dist, 'tf')
+        sub = [s for s in pool if len(s) <= 65000 and utf8_ok(s)]
+        step = max(1, len(sub) // (5000 if tier == 'quick' else 80000))
+        for s in sub[::step]:
+            frames = [('v3', ('subscribe', 3, [(b'ok/#', 1), (s, 2)])),
+                      ('v5', ('subscribe', 3, ({}, []), [(s, 1, 0, 1, 0)])),
+                      ('v3', ('unsubscribe', 4, [s, b'x'])),
+                      ('v5', ('unsubscribe', 4, ({}, [(b'k', b'v')]), [b'y', s]))]
+            for fam, p in frames:
+                c = 'dec %s %s' % (fam, pk.hx(pk.encode(fam, p)))
+                self.meta[c] = s
+                cs.append(c)
+                hist(dist, 'dec:' + p[0])
+        return cs, dist
+
+    def spec_phase(self, cases, act, workdir, prof):
+        idx = [i for i, c in enumerate(cases) if c.startswith('tf ')]
+        out = driver_run(['spec_tf ' + cases[i].split()[1] for i in idx], workdir, 'spec.' + prof)
+        res = [None] * len(cases)
+        for i, o in zip(idx, out):
+            res[i] = o
+        return res
+
+    def judge(self, case, line, spec, ctx, i):
+        t = case.split()
+        if t[0] == 'tf':
+            s = bytes.fromhex(t[1][1:])
+            rule = filter_rule(s)
+            if rule is None:
+                return None if line == 'notutf8' else 'harness utf8 pre-check differs'
+            f = fields(line)
+            want = '%d,%d' % (0 if rule[0] else 1, rule[1] if rule[0] else 0)
+            if spec is not None and spec != '%d,%d' % (1 if rule[0] else 0, rule[1] if rule[0] else 0):
+                raise lib.Broken('Spec.topic_filter_ok and the Python rule disagree on %s: %s vs %s' % (t[1][:80], spec, rule))
+            if f.get('inv') != want:
+                return 'TopicFilter::is_invalid(%s) = (%s), MQTT 4.7/4.8 gives (%s)' % (t[1][:80], f.get('inv'), want)
+            if f.get('try') != ('ok' if rule[0] else 'err'):
+                return 'TopicFilter::try_from: %s' % f.get('try')
+            return None
+        s = self.meta.get(case)
+        if s is None:
+            return None
+        ok = filter_rule(s)[0]
+        f = fields(line)
+        for fe in ('block', 'async', 'poll'):
+            r = f.get(fe, '')
+            if ok and not r.startswith('ok '):
+                return '%s decoder rejects a SUBSCRIBE/UNSUBSCRIBE whose filter %s is valid: %s' % (fe, pk.hx(s)[:60], r[:80])
+            if not ok and r != 'err InvalidTopicFilter ' + pk.hx(s):
+                return '%s decoder on invalid filter %s: %s' % (fe, pk.hx(s)[:60], r[:100])
+        return None
+
+    def nontrivial(self, case, line):
+        return len(case.split()[-1]) > 1
+
+
+@register
+class C17(Base):
+    id = 'C17'
+    ops = ['tf', 'tfcmp']
+    rule = ('all valid filters of the C16 pool (multi-byte share names, filters beginning with "/", long ones) through the '
+            'accessors; pairwise ==, cmp and hash-of-filter = hash-of-text on random pairs including equal texts built '
+            'separately. Non-trivial: shared filter, or a pair of distinct texts.')
+
+    def cases(self, rng, tier):
+        cs = self.corpus()
+        dist = {}
+        pool = [s for s in string_pool(rng, tier) if (filter_rule(s) or (False,))[0]]
+        g = pk.Gen(rng)
+        pool += [g.topic_filter() for _ in range(3000)]
+        pool += [b'$share/' + n + b'/' + f for n in (b'g', '你好'.encode(), b'a b', b'$share', '\U0001F600'.encode())
+                 for f in (b'/', b'//', b'/a', b'#', b'+', b'+/#', b'a/+/b', '你'.encode(), b'/#')]
+        for s in pool:
+            cs.append('tf ' + pk.hx(s))
+            hist(dist, 'tf:shared' if s.startswith(b'$share/') else 'tf:plain')
+        n = 6000 if tier == 'quick' else 200000
+        small = [s for s in pool if len(s) < 200]
+        for _ in range(n):
+            a = rng.choice(small)
+            k = rng.random()
+            b = a if k < 0.2 else (a[:-1] if k < 0.3 and len(a) > 1 else rng.choice(small))
+            cs.append('tfcmp %s %s' % (pk.hx(a), pk.hx(b)))
+            hist(dist, 'tfcmp')
+        return cs, dist
+
+    def judge(self, case, line, spec, ctx, i):
+        t = case.split()
+        if t[0] == 'tf':
+            s = bytes.fromhex(t[1][1:])
+            rule = filter_rule(s)
+            if rule is None or not rule[0]:
+                return None
+            f = fields(line)
+            if f.get('try') != 'ok':
+                return None        # C16's business
+            if f.get('deref') != '1' or f.get('str') != '1':
+                return 'converting the filter back to text does not return the original string'
+            if s.startswith(b'$share/'):
+                name, flt = s[7:].split(b'/', 1)
+                want = dict(shared='1', group=pk.hx(name), filter=pk.hx(flt), info=pk.hx(name) + ',' + pk.hx(flt))
+            else:
+                want = dict(shared='0', group='-', filter='-', info='-')
+            for k, v in want.items():
+                if f.get(k) != v:
+                    return 'accessor %s on %s: %s, the unique split gives %s' % (k, t[1][:80], f.get(k), v)
+            if f.get('sys') != ('1' if s.startswith(b'$SYS/') else '0'):
+                return 'is_sys wrong'
+            return None
+        a, b = bytes.fromhex(t[1][1:]), bytes.fromhex(t[2][1:])
+        ra, rb = filter_rule(a), filter_rule(b)
+        if not (ra and rb and ra[0] and rb[0]):
+            return None
+        f = fields(line)
+        want = dict(eq='1' if a == b else '0', cmp='lt' if a < b else 'gt' if a > b else 'eq', hasheq='1')
+        for k, v in want.items():
+            if f.get(k) != v:
+                return '%s of filters %s / %s: %s, from the text alone: %s' % (k, t[1][:40], t[2][:40], f.get(k), v)
+        return None
+
+    def nontrivial(self, case, line):
+        t = case.split()
+        return (t[0] == 'tf' and t[1].startswith('x2473686172652f')) or (t[0] == 'tfcmp' and t[1] != t[2])
+
+
+# ====================================================================== packet pools
+import pools
+
+
+def both_pools(rng, tier, n_random=None):
+    out = []
+    dist = {}
+    for fam in ('v3', 'v5'):
+        ps, d = pools.packets(rng, tier, fam, n_random)
+        out += [(fam, p) for p in ps]
+        for k, v in d.items():
+            dist[fam + ':' + k] = v
+    return out, dist
+
+
+def enc_bytes(f):
+    """bytes of an `enc=ok VB HEX` field, or None"""
+    e = f.get('enc', '')
+    if not e.startswith('ok '):
+        return None
+    return bytes.fromhex(e.split()[2][1:])
+
+
+# ====================================================================== C01
+@register
+class C01(Base):
+    id = 'C01'
+    ops = ['rt']
+    rule = ('G-pkt: random valid packets of all 14 v3 + 15 v5 types, every return/reason code x property presence (all/none), '
+            'every flag / subscription-option combination, every property alone, user-property lists of length 0..40, '
+            'text/binary lengths from {0,1,127,128,16383,16384,65535}, size-targeted remaining lengths and property '
+            'lengths at 127/128, 16383/16384 (thorough: 2097151/2097152). Non-trivial: a packet with a body.')
+
+    def cases(self, rng, tier):
+        cs = self.corpus()
+        ps, dist = both_pools(rng, tier)
+        cs += ['rt %s %s' % (fam, pk.tok(fam, p)) for fam, p in ps]
+        return cs, dist
+
+    def judge(self, case, line, spec, ctx, i):
+        if line == 'BADCASE':
+            return 'harness could not build the packet (generator bug?)'
+        want = 'ok ' + case.split(' ', 2)[2]
+        f = fields(line)
+        b = enc_bytes(f)
+        if b is None:
+            return 'encode of a valid packet failed: ' + f.get('enc', '')[:100]
+        n = len(b)
+        if f.get('len') != 'ok %d' % n:
+            return 'encode_len %s but %d bytes were produced' % (f.get('len'), n)
+        for fe in ('block', 'async', 'poll'):
+            if f.get(fe) != want:
+                return '%s decoder does not return the original packet: %s' % (fe, f.get(fe, '')[:160])
+        hl = frame_info(b)[0]
+        if f.get('ptotal') != str(n):
+            return 'poll decoder reports total %s for a %d-byte packet' % (f.get('ptotal'), n)
+        if f.get('pbody') != pk.hx(b[hl:]):
+            return 'poll decoder does not hand back the raw body bytes'
+        if f.get('aused') != str(n) or f.get('pused') != str(n):
+            return 'decoder consumed %s (async) / %s (poll) bytes of a %d-byte packet' % (f.get('aused'), f.get('pused'), n)
+        return None
+
+    def nontrivial(self, case, line):
+        return case.split()[2] not in ('pingreq', 'pingresp', 'disconnect') or case.split()[1] == 'v5'
+
+
+# ====================================================================== C02
+@register
+class C02(Base):
+    id = 'C02'
+    ops = ['enc', 'big', 'kf1']
+    cross_profile = True
+    rule = ('the C01 packet pool through Packet::encode, Packet::encode_len, every body and every separately encodable '
+            'part (protocol, will, each property set), in both build profiles (outputs must be identical); shape-only '
+            'PUBLISH packets with remaining length 268435455 / 268435456 and beyond; the KF1 witness. '
+            'Non-trivial: a packet with at least one part or a body of >= 128 bytes.')
+
+    def cases(self, rng, tier):
+        cs = self.corpus()
+        ps, dist = both_pools(rng, tier)
+        cs += ['enc %s %s' % (fam, pk.tok(fam, p)) for fam, p in ps]
+        for fam in ('v3', 'v5'):
+            extra = 0 if fam == 'v3' else 1
+            for rl in (268435454, 268435455, 268435456, 268435457, 300000000):
+                for q in (0, 1):
+                    tl = 3
+                    pl = rl - 2 - tl - (2 if q else 0) - extra
+                    cs.append('big %s publish %d %d %d' % (fam, tl, q, pl))
+                    hist(dist, 'big')
+        cs.append('kf1 2100')
+        cs.append('kf1 2047')
+        return cs, dist
+
+    def judge(self, case, line, spec, ctx, i):
+        t = case.split()
+        if t[0] == 'kf1':
+            f = fields(line)
+            n = int(t[1]) * (5 + 2 * 65535)
+            if n >= 268435456 and 'PANIC' in f.get('len', ''):
+                return ('KF', 'KF1', 'encode_len of a v5 packet whose property section is %d bytes panics instead of returning an error' % n)
+            if n >= 268435456 and not f.get('len', '').startswith('err'):
+                return 'oversize property section: encode_len = %s' % f.get('len')
+            return None
+        if t[0] == 'big':
+            fam, tl, q, pl = t[1], int(t[3]), int(t[4]), int(t[5])
+            rl = 2 + tl + (2 if q else 0) + pl + (1 if fam == 'v5' else 0)
+            f = fields(line)
+            if rl >= 268435456:
+                if f.get('len') != 'err InvalidVarByteInt' or f.get('enc') != 'err InvalidVarByteInt':
+                    return 'packet with remaining length %d is not refused: len=%s enc=%s' % (rl, f.get('len'), f.get('enc'))
+            else:
+                want = 'ok %d' % (rl + 5)
+                if f.get('len') != want or f.get('enc') != want:
+                    return 'packet with remaining length %d: len=%s enc=%s' % (rl, f.get('len'), f.get('enc'))
+            return None
+        if line == 'BADCASE':
+            return 'harness could not build the packet (generator bug?)'
+        f = fields(line)
+        b = enc_bytes(f)
+        if b is None:
+            return 'encode of a valid packet failed: ' + f.get('enc', '')[:100]
+        if f.get('len') != 'ok %d' % len(b):
+            return 'encode_len %s but %d bytes were emitted' % (f.get('len'), len(b))
+        hl, rl = frame_info(b)
+        if rl != len(b) - hl:
+            return 'remaining-length field says %d, %d bytes follow the header' % (rl, len(b) - hl)
+        if pk.vbi(rl) != b[1:hl]:
+            return 'remaining length is not minimally encoded'
+        if f.get('body') not in ('-', None):
+            if f['body'] != pk.hx(b[hl:]):
+                return 'the body encoder writes bytes different from the packet body'
+            if f.get('blen') != str(len(b) - hl):
+                return 'body.encode_len() = %s but the body encoder wrote %d bytes' % (f.get('blen'), len(b) - hl)
+        if f.get('parts', '-') != '-':
+            for part in f['parts'].split(','):
+                nm, hx_, ln = part.split(':')
+                if hx_ == 'PANIC' or ln == 'PANIC':
+                    return 'part %s panics' % nm
+                if (len(hx_) - 1) // 2 != int(ln):
+                    return 'part %s writes %d bytes but reports %s' % (nm, (len(hx_) - 1) // 2, ln)
+        if f.get('async') != 'ok ' + pk.hx(b):
+            return 'encode_async emits different bytes'
+        return None
+
+    def nontrivial(self, case, line):
+        return 'parts=-' not in line or len(line) > 400
+
+
+# ====================================================================== C10
+@register
+class C10(Base):
+    id = 'C10'
+    ops = ['enc']
+    profiles = ('release',)
+    rule = ('the C01 packet pool (every enum variant written as a wire number, every property) encoded by the implementation; '
+            'the judge feeds the implementation\'s bytes to the extracted reference parser Spec.parse (independent tables, '
+            'slicing structure) and compares the recovered packet with the original. Non-trivial: packet with a body.')
+
+    def cases(self, rng, tier):
+        cs = self.corpus()
+        ps, dist = both_pools(rng, tier)
+        cs += ['enc %s %s' % (fam, pk.tok(fam, p)) for fam, p in ps]
+        return cs, dist
+
+    def spec_phase(self, cases, act, workdir, prof):
+        lines, idx = [], []
+        for i, (c, a) in enumerate(zip(cases, act)):
+            b = enc_bytes(fields(lib.normalize(a)))
+            if b is not None:
+                idx.append(i)
+                lines.append('specparse %s %s' % (c.split()[1], pk.hx(b)))
+        out = driver_run(lines, workdir, 'spec.' + prof)
+        res = [None] * len(cases)
+        for i, o in zip(idx, out):
+            res[i] = o
+        return res
+
+    def judge(self, case, line, spec, ctx, i):
+        if spec is None:
+            return 'encode failed: ' + line[:100]
+        want = 'ok ' + case.split(' ', 2)[2]
+        if spec != want:
+            return 'the independent MQTT parser reads the emitted bytes as: %s' % spec[:200]
+        return None
+
+    def nontrivial(self, case, line):
+        return case.split()[2] not in ('pingreq', 'pingresp')
+
+
+# ====================================================================== C09
+def accept_scripts(rng, n):
+    out = ['-', 'a1', '.'.join(['a1'] * min(n, 48)), '.'.join(['a2'] * min(n // 2 + 1, 32)), '.'.join(['a3'] * 20),
+           '.'.join(['a7'] * 10), 'p', 'p.p.a1.p.a2.p', '.'.join(['p', 'a1'] * min(n, 24)), 'a%d' % max(1, n - 1), 'a%d' % n,
+           'a%d' % (n + 5)]
+    steps = []
+    for _ in range(rng.randint(1, 30)):
+        steps.append(rng.choice(['p', 'a1', 'a2', 'a5', 'a13', 'a100']))
+    out.append('.'.join(steps))
+    return out
+
+
+@register
+class C09(Base):
+    id = 'C09'
+    ops = ['enc', 'wr']
+    rule = ('a sample of the C01 packet pool: Packet::encode twice (repeated invocation), the VarBytes container, '
+            'encode_async and the streaming body encoder into scripted sinks accepting 1, 2, 3, 7, n-1, n, n+5 or random '
+            'bytes per write with Pending before any write (async).  Non-trivial: a sink script with >= 2 steps.')
+
+    def cases(self, rng, tier):
+        cs = self.corpus()
+        ps, dist = both_pools(rng, tier, n_random=25 if tier == 'quick' else 400)
+        self.pkts = {}
+        for fam, p in ps:
+            tok = pk.tok(fam, p)
+            n = len(pk.encode(fam, p))
+            if n > 3000 and rng.random() < 0.8:
+                continue
+            cs.append('enc %s %s' % (fam, tok))
+            cs.append('enc %s %s' % (fam, tok))
+            for sc in accept_scripts(rng, n):
+                cs.append('wr %s async %s %s' % (fam, tok, sc))
+                if 'p' not in sc.split('.') and p[0] not in ('pingreq', 'pingresp') and not (
+                        fam == 'v3' and p[0] in ('connack', 'puback', 'pubrec', 'pubrel', 'pubcomp', 'unsuback', 'disconnect')):
+                    cs.append('wr %s stream %s %s' % (fam, tok, sc))
+        return cs, dist
+
+    def context(self, cases, act):
+        m = {}
+        for c, a in zip(cases, act):
+            if c.startswith('enc '):
+                fam, tok = c.split(' ', 2)[1:]
+                m.setdefault((fam, tok), []).append(lib.normalize(a))
+        return m
+
+    def judge(self, case, line, spec, ctx, i):
+        t = case.split(' ', 2)
+        if t[0] == 'enc':
+            f = fields(line)
+            b = enc_bytes(f)
+            if b is None:
+                return 'encode failed'
+            vb = f['enc'].split()[1]
+            if vb == 'fixed2' and len(b) != 2 or vb == 'fixed4' and len(b) != 4:
+                return 'VarBytes::%s exposes %d bytes' % (vb, len(b))
+            if f.get('async') != 'ok ' + pk.hx(b):
+                return 'encode_async emits different bytes than encode'
+            if len(set(ctx[(t[1], t[2])])) != 1:
+                return 'repeated invocations of encode differ'
+            hl = frame_info(b)[0]
+            if f.get('body') not in ('-', None) and pk.hx(b[hl:]) != f['body']:
+                return 'packet encoding is not fixed header + streaming body encoding'
+            return None
+        fam = t[1]
+        entry, rest = t[2].split(' ', 1)
+        tok, script = rest.rsplit(' ', 1)
+        ref = ctx.get((fam, tok))
+        if not ref:
+            return None
+        rf = fields(ref[0])
+        b = enc_bytes(rf)
+        f = fields(line)
+        if entry == 'async':
+            want = pk.hx(b)
+        else:
+            want = rf.get('body')
+            if want in ('-', None):
+                return None
+        if f.get('res') != 'ok':
+            return '%s encoder into an accepting sink (%s): %s' % (entry, script[:40], f.get('res'))
+        if f.get('written') != want:
+            return '%s encoder wrote different bytes under sink script %s' % (entry, script[:40])
+        return None
+
+    def nontrivial(self, case, line):
+        return case.startswith('wr ') and '.' in case.rsplit(' ', 1)[1]
